@@ -437,8 +437,54 @@ RENDERS_FK_INLINE = ('sqlite', 'mssql', 'sybase')
 
 def minimal_case(spec, ci, dialect):
     c = spec['cols'][ci]
-    return {'dialect': dialect, 'reuse': spec.get('reuse'), 'col': {k: v for k, v in c.items() if k != 'default'},
+    return {'dialect': dialect, 'reuse': spec.get('reuse'), 'table': spec.get('table'), 'col': {k: v for k, v in c.items() if k != 'default'},
             'targets': [{k: v for k, v in t.items() if k != 'obj'} for t in spec['targets']]}
+
+
+_ALTER_FK = None
+
+
+def constraints_oracle(ctx, spec, cls, dialect, cons):
+    """the second component of createTableSQL: a list of executable statements (no None, no blanks), one ALTER TABLE per
+    foreign key on the dialects that add them afterwards (mysql, postgres), each naming this table (schema-qualified
+    as declared), an UNQUALIFIED constraint name following the documented convention, the column, the target."""
+    import re
+    global _ALTER_FK
+    if _ALTER_FK is None:
+        _ALTER_FK = re.compile(r'ALTER TABLE (\S+) ADD CONSTRAINT (\S+) FOREIGN KEY \((\S+)\) REFERENCES (\S+) \((\S+)\) ?(.*)$')
+    case = {'dialect': dialect, 'spec': strip(spec)}
+    lists = [('conn.createTableSQL', cons)]
+    try:
+        lists.append(('cls.createTableSQL', list(cls.createTableSQL(connection=env()['conns'][dialect])[1])))
+    except Exception:
+        pass
+    for who, lst in lists:
+        bad = [c for c in lst if not isinstance(c, str) or not c.strip()]
+        if bad:
+            ctx.oracle_fail('C14:%s:constraints:not-a-statement' % dialect,
+                            '%s(...)[1] for %s contains %r: createTable(applyConstraints=True) would execute it'
+                            % (who, dialect, bad[:2]), case)
+            return False
+    fks = [(ci, so_col) for ci, (c, so_col) in enumerate(zip(spec['cols'], cls.sqlmeta.columnList)) if c['kind'][0] == 'f']
+    want_n = len(fks) if dialect in ('mysql', 'postgres') else 0
+    if len(cons) != want_n:
+        ctx.oracle_fail('C14:%s:constraints:count' % dialect, '%d reference constraints for %d foreign keys: %r'
+                        % (len(cons), len(fks), cons[:3]), case)
+        return True
+    table = cls.sqlmeta.table
+    for (ci, so_col), con in zip(fks, cons):
+        m = _ALTER_FK.match(con)
+        tg = spec['targets'][spec['cols'][ci]['kind'][1]]
+        local = table.rsplit('.', 1)[-1]
+        want_name = ('%s_%s_exists' % (local, so_col.dbName)) if dialect == 'mysql' else '%s_exists' % so_col.dbName
+        got = m.groups()[:5] if m else None
+        want = (table, want_name, so_col.dbName, tg['table_real'], tg['id_real'])
+        if got != want:
+            what = 'constraint-name' if (got and got[:1] + got[2:] == want[:1] + want[2:]) else 'constraint-text'
+            ctx.oracle_fail('C14:%s:fk:%s' % (dialect, what),
+                            '%s reference constraint of %s.%s: (table, constraint name, column, target, target id) = %r, expected %r'
+                            % (dialect, table, so_col.dbName, got, want), minimal_case(spec, ci, dialect))
+    return True
 
 
 def text_oracle(ctx, spec, cls, dialect, sql, cons):
@@ -450,6 +496,8 @@ def text_oracle(ctx, spec, cls, dialect, sql, cons):
             return
         ctx.oracle_fail('C14:%s:render-raises' % dialect, 'createTableSQL raises for %s' % dialect,
                         {'dialect': dialect, 'spec': strip(spec)})
+        return
+    if not constraints_oracle(ctx, spec, cls, dialect, cons):
         return
     cols, refs = py_skeleton(sql)
     decl = declared(spec, cls)
@@ -498,7 +546,7 @@ def text_oracle(ctx, spec, cls, dialect, sql, cons):
             if dialect == 'maxdb' and r is None:
                 # table-level clause `FOREIGN KEY (col) REFERENCES t(id)`
                 import re
-                m = re.search(r'FOREIGN KEY \(%s\) REFERENCES (\w+)\(' % re.escape(d['db']), sql)
+                m = re.search(r'FOREIGN KEY \(%s\) REFERENCES ([\w.]+)\(' % re.escape(d['db']), sql)
                 r = (d['db'], m.group(1), 'none') if m else None
             if r is None:
                 if dialect != 'firebird':                  # firebird renders no foreign keys at all
@@ -593,11 +641,20 @@ def sqlite_oracle(ctx, spec, cls):
     if any(c['kind'][0] == 'i' and c['kind'][2] and (c['kind'][3] or c['kind'][4]) for c in spec['cols']):
         ctx.count('sqlite-execution-skipped:INT(n) UNSIGNED/ZEROFILL is MySQL-only syntax')
         return
+    if '.' in table or any('.' in t['table_real'] for t in spec['targets']):
+        ctx.count('sqlite-execution-skipped:schema-qualified table name (no such schema in the in-memory database)')
+        return
     if any(c['kind'][0] == 'e' and any(v is not None and '\x00' in v for v in c['kind'][1]) for c in spec['cols']):
         ctx.count('sqlite-execution-skipped:NUL in an enum value (the sqlite3 driver refuses NUL in a statement)')
         return
     try:
-        cls.createTable()
+        if any(c['kind'][0] == 'f' for c in spec['cols']) and len(spec['cls']) % 2:
+            left = cls.createTable(applyConstraints=False)
+            if any(not isinstance(x, str) or not x.strip() for x in left):
+                ctx.oracle_fail('C14:sqlite:constraints:not-a-statement',
+                                'createTable(applyConstraints=False) returns %r' % (left,), {'spec': key_spec})
+        else:
+            cls.createTable()
     except Exception as e:
         if bad_enum:
             ctx.oracle_fail('C14:sqlite:enum:create-fails',
@@ -1175,6 +1232,99 @@ def scenario_if_flags(ctx):
             ctx.compare('catalogue: createTable/dropTable with if-flags and join flags: model = real on SQLite', c, o.strip(), real.strip())
 
 
+def style_names(rng, n_random):
+    """identifiers with capital runs of every length 1-4 in first / middle / last position, digits, one or several
+    underscores (leading, inner, trailing), the ID / Id endings"""
+    lows = ['a', 'ab', 'code', 'x1', 'n']
+    runs = ['B', 'BC', 'BCD', 'BCDE', 'ID', 'I', 'XID']
+    out = ['userID', 'aBCode', 'HTTPServer', 'IDCard', 'fooId', 'fooID', 'ID', 'aID', 'x', 'X', 'aB', 'ab', 'a1B2', 'aBC', 'ABC', 'aBCDe',
+           'aBcDe', '_x', 'x_', 'a__b', 'foo_bar', 'foo_id', 'foo_bar_id', 'fooBarID', '_', '__', 'a_b_c', 'A_b', 'x_ID', 'idID', 'IDID',
+           'a1', '1a', 'aB1C', 'camelCaseName', 'rawXMLData', 'p2PLink']
+    for lo in lows:
+        for run in runs:
+            out += [run + lo, lo + run + lo, lo + run, lo + run + '1', lo + '1' + run, lo + run + lo + run, lo + '_' + run, lo + run + '_']
+    alphabet = ['a', 'b', 'A', 'B', 'I', 'D', 'd', '1', '_', 'Id', 'ID', 'x']
+    for _ in range(n_random):
+        out.append(''.join(rng.choice(alphabet) for _ in range(rng.randint(1, 8))))
+    seen, res = set(), []
+    for s in out:
+        if s and s not in seen:
+            seen.add(s)
+            res.append(s)
+    return res
+
+
+def is_camel(s):
+    """the names the library's own naming convention is meant for (lower camel case): no underscore, no leading capital,
+    not ending in `Id`, no run of three capitals once a final `ID` is set aside — as `Camel` in Lemmas/DdlStyle.lean"""
+    if '_' in s or (s[:1].isascii() and s[:1].isupper()) or s.endswith('Id'):
+        return False
+    core = s[:-2] if s.endswith('ID') else s
+    return not any(core[i:i + 3].isalpha() and core[i:i + 3].isupper() for i in range(len(core) - 2))
+
+
+def scenario_styles(ctx):
+    """the name mapping of the real styles.py: python -> db -> python round trip, injectivity, foreign-key naming, the
+    db -> python -> db direction on names with several underscores, class <-> table, through the functions and the
+    Style objects (pythonAttrToDBColumn / dbColumnToPythonAttr / pythonClassToDBTable / dbTableToPythonClass)"""
+    from sqlobject import styles
+    st = styles.MixedCaseUnderscoreStyle()
+    mc = styles.MixedCaseStyle()
+    names = style_names(ctx.rng, ctx.budget(1500, 40000))
+    by_db = {}
+    for s in names:
+        case = {'scenario': 'styles', 'name': s}
+        try:
+            db = styles.mixedToUnder(s)
+            if st.pythonAttrToDBColumn(s) != db:
+                ctx.oracle_fail('C14:style:api', 'pythonAttrToDBColumn(%r) = %r but mixedToUnder gives %r' % (s, st.pythonAttrToDBColumn(s), db), case)
+            ident = all(ch.isascii() and (ch.isalnum() or ch == '_') for ch in s)
+            if ident and not all(ch.isdigit() or ch == '_' or ('a' <= ch <= 'z') for ch in db):
+                ctx.oracle_fail('C14:style:db-name-chars', 'mixedToUnder(%r) = %r is not a lower-case identifier' % (s, db), case)
+            if not s.endswith('ID') and styles.mixedToUnder(s + 'ID') != db + '_id':
+                ctx.oracle_fail('C14:style:fk-name', 'attribute %r: its foreign-key column is %r, expected %r'
+                                % (s, styles.mixedToUnder(s + 'ID'), db + '_id'), case)
+            if is_camel(s):
+                back = styles.underToMixed(db)
+                back2 = st.dbColumnToPythonAttr(st.pythonAttrToDBColumn(s))
+                if back != s or back2 != s:
+                    ctx.oracle_fail('C14:style:roundtrip', 'python name %r -> column %r -> python name %r (Style object: %r)' % (s, db, back, back2), case)
+                if db in by_db and by_db[db] != s:
+                    ctx.oracle_fail('C14:style:injective', 'the distinct attribute names %r and %r both map to the column %r' % (by_db[db], s, db),
+                                    {'scenario': 'styles', 'name': s, 'other': by_db[db]})
+                by_db.setdefault(db, s)
+                C = s[0].upper() + s[1:] if s[:1].isalpha() else 'T' + s
+                if is_camel(C[1:]) and not C[1:].endswith('ID'):
+                    tbl = st.pythonClassToDBTable(C)
+                    if st.dbTableToPythonClass(tbl) != C:
+                        ctx.oracle_fail('C14:style:class-roundtrip', 'class %r -> table %r -> class %r' % (C, tbl, st.dbTableToPythonClass(tbl)),
+                                        {'scenario': 'styles', 'name': s, 'cls': C})
+                if mc.dbColumnToPythonAttr(mc.pythonAttrToDBColumn(s)) != s:
+                    ctx.oracle_fail('C14:style:mixedcase-roundtrip', 'MixedCaseStyle: %r -> %r -> %r'
+                                    % (s, mc.pythonAttrToDBColumn(s), mc.dbColumnToPythonAttr(mc.pythonAttrToDBColumn(s))), case)
+            ctx.count('style-name:%s' % ('camel' if is_camel(s) else 'other'))
+        except Exception as e:
+            ctx.oracle_fail('C14:style:raises', 'name mapping of %r raises %s: %s' % (s, type(e).__name__, e), case)
+    # the other direction: column / table names as a database would give them (several underscores, digits, `_id`)
+    words = ['ab', 'c1', 'xyz', 'id', 'q2w', 'name', 'http', 'v2']
+    rng = ctx.rng
+    dbs = ['foo_bar', 'foo_bar_baz', 'a1_b2_c3', 'user_id', 'http_server_id', 'ab_id_xyz', 'xyz']
+    for _ in range(ctx.budget(300, 5000)):
+        dbs.append('_'.join(rng.choice(words) for _ in range(rng.randint(1, 5))))
+    for d in dbs:
+        case = {'scenario': 'styles', 'db_name': d}
+        try:
+            py = styles.underToMixed(d)
+            if '_' in py or styles.mixedToUnder(py) != d or st.pythonAttrToDBColumn(st.dbColumnToPythonAttr(d)) != d:
+                ctx.oracle_fail('C14:style:reverse-roundtrip', 'column %r -> python name %r -> column %r' % (d, py, styles.mixedToUnder(py)), case)
+            cls_name = st.dbTableToPythonClass(d)
+            if not cls_name[:1].isupper() or st.pythonClassToDBTable(cls_name) != d:
+                ctx.oracle_fail('C14:style:reverse-class-roundtrip', 'table %r -> class %r -> table %r' % (d, cls_name, st.pythonClassToDBTable(cls_name)), case)
+            ctx.count('style-name:db')
+        except Exception as e:
+            ctx.oracle_fail('C14:style:raises', 'name mapping of %r raises %s: %s' % (d, type(e).__name__, e), case)
+
+
 def scenario_evolution(ctx):
     import sqlobject as so
     conn = env()['conns']['sqlite']
@@ -1260,12 +1410,13 @@ def scenario_evolution(ctx):
 
 # ------------------------------------------------------------------ generator
 ATTRS = ['name', 'fullName', 'age', 'x1', 'aB', 'httpURL', 'userID', 'zipCode', 'a', 'qty', 'createdAt', 'isOn', 'v2Beta',
-         'nX', 'lastLoginIP', 'so_me', 'tag', 'kind', 'amount', 'ref', 'owner', 'parentNode', 'bID', 'cIDx']
+         'nX', 'lastLoginIP', 'so_me', 'tag', 'kind', 'amount', 'ref', 'owner', 'parentNode', 'bID', 'cIDx',
+         'aBCode', 'xIDCard', 'dbHTTPPort', 'eTag', 'isOK', 'rawXMLData', 'p2PLink', 'utf8BOM', 'nodeABTest', 'qAB']
 DBNAMES = ['custom_col', 'ColX', 'c_2', 'UPPER', 'weird__name', 'x']
 DEFAULTS = ['0', "'x'", 'NULL', "'it''s, NOT NULL ('", 'CURRENT_TIMESTAMP', '(1 + 2)', "'a b'", '-1', "'UNIQUE'", "('PRIMARY KEY')"]
 ENUM_VALUES = ['a', 'b', "it's", 'x y', 'NOT NULL', "')", '(', ',', "''", 'UNIQUE,', 'éè', '', 'long value here', "a'b'c",
                '"q"', '%s', 'x\\y', 'tab\there', 'nl\nx', '\\', "\\'", 'nul\x00', 'E', None]
-CLASSWORDS = ['Order', 'Item', 'HTTPLog', 'X', 'UserID', 'Data2', 'ABc', 'Foo', 'BarBaz']
+CLASSWORDS = ['Order', 'Item', 'HTTPLog', 'X', 'UserID', 'Data2', 'ABc', 'Foo', 'BarBaz', 'IDCard', 'ABTest', 'XMLHTTPReq', 'A1B', 'OkID']
 
 
 def gen_kind(rng, ntargets, plain_enum):
@@ -1309,7 +1460,9 @@ def gen_spec(rng, plain_enum=True):
     targets = []
     for i in range(ntargets):
         targets.append({'cls': sqlo.uniq('C14Tgt' + rng.choice(['', 'Node', 'XY'])), 'idName': rng.choice([None, None, 'oid']),
-                        'idStr': rng.random() < 0.15, 'table': rng.choice([None, None, None, 'tgt_tbl_%d' % rng.randint(0, 10 ** 6)])})
+                        'idStr': rng.random() < 0.15,
+                        'table': rng.choice([None, None, None, 'tgt_tbl_%d' % rng.randint(0, 10 ** 6),
+                                             'refdb.tgt_%d' % rng.randint(0, 10 ** 6)])})
     ncols = rng.choice([1, 2, 3, 3, 4, 6])
     names = rng.sample(ATTRS, ncols)
     cols = []
@@ -1328,7 +1481,7 @@ def gen_spec(rng, plain_enum=True):
         indexes.append({'name': 'ix%d' % i, 'unique': rng.random() < 0.5, 'cols': rng.sample(range(ncols), k)})
     style = rng.choice(['u', 'u', 'u', 'm', 'p'])
     return {'cls': sqlo.uniq('C14' + rng.choice(CLASSWORDS) + rng.choice(CLASSWORDS)), 'style': style,
-            'longID': rng.random() < 0.2, 'table': rng.choice([None, None, None, 'tbl_%d' % rng.randint(0, 10 ** 6)]),
+            'longID': rng.random() < 0.2, 'table': rng.choice([None, None, None, None, 'tbl_%d' % rng.randint(0, 10 ** 6), 'shop.tbl_%d' % rng.randint(0, 10 ** 6)]),
             'idName': rng.choice([None, None, None, 'pk', 'my_id']), 'idStr': rng.random() < 0.12,
             'idSize': rng.choice([None, None, None, 'TINY', 'SMALL', 'MEDIUM', 'BIG']),
             'cols': cols, 'targets': targets, 'indexes': indexes}
@@ -1348,9 +1501,10 @@ def corpus():
         return s
     tg = {'cls': None, 'idName': 'oid', 'idStr': False, 'table': None}
 
-    def t():
+    def t(**kw):
         d = dict(tg)
         d['cls'] = sqlo.uniq('C14CorpusTgt')
+        d.update(kw)
         return d
     out = [
         # the findings' minimal witnesses
@@ -1361,6 +1515,12 @@ def corpus():
         spec([col('owner', ('f', 0, 'null'), uq=True)], [t()]),
         spec([col('owner', ('f', 0, False))], [t()]),
         spec([col('owner', ('f', 0, None), dsql='0')], [t()]),
+        # schema-qualified table names on the referencing and / or the referenced side
+        spec([col('owner', ('f', 0, True), nn=True), col('buyerRef', ('f', 1, 'null'))], [t(table='crm.customer'), t()],
+             table='shop.order_line'),
+        spec([col('owner', ('f', 0, False))], [t()], table='a.b.deep_tbl'),
+        spec([col('userID', ('i', 'int', 0, False, False)), col('aBCode', ('t', False, 8, None)), col('owner', ('f', 0, None))],
+             [t(table='other_db.users')]),
         spec([col('e', ('e', ['x\\y']))]),                                     # sqlite: E'' literal in the CHECK
         spec([col('e', ('e', ['a\nb', "q'"]), nn=True)]),
         # quoting / keyword traps
@@ -1423,6 +1583,12 @@ def run_spec(ctx, spec, micro, mx, sample=False, reuse=None):
     if len(set(n.lower() for n in dbnames)) != len(dbnames):
         ctx.count('declaration-skipped:duplicate-db-name')
         return
+    if spec['style'] == 'u':
+        for c, so_col in zip(spec['cols'], cls.sqlmeta.columnList):
+            if c['dbName'] is None and is_camel(so_col.name) and cls.sqlmeta.style.dbColumnToPythonAttr(so_col.dbName) != so_col.name:
+                ctx.oracle_fail('C14:style:column-roundtrip', 'attribute %r got the column %r, which maps back to %r'
+                                % (so_col.name, so_col.dbName, cls.sqlmeta.style.dbColumnToPythonAttr(so_col.dbName)),
+                                {'scenario': 'styles', 'name': so_col.name})
     set_caps(micro, mx)
     try:
         joins = [(j.intermediateTable, j.joinColumn, j.otherColumn) for j in cls._getJoinsToCreate()]
@@ -1491,6 +1657,7 @@ def run(ctx):
     for i, spec in enumerate(corpus()):
         run_spec(ctx, spec, micro=bool(i % 2), mx=bool(i % 3 == 0), reuse=REUSE_MODES[i % len(REUSE_MODES)])
     scenario_joins(ctx)
+    scenario_styles(ctx)
     scenario_if_flags(ctx)
     scenario_evolution(ctx)
     scenario_evolution_ids(ctx)
@@ -1563,7 +1730,9 @@ def replay(case):
     if 'scenario' in case:
         from vlib.framework import prng
         c.rng = prng(0)
-        if case['scenario'] == 'if-flags':
+        if case['scenario'] == 'styles':
+            scenario_styles(c)
+        elif case['scenario'] == 'if-flags':
             scenario_if_flags(c)
         elif case['scenario'] == 'evolution-ids':
             scenario_evolution_ids(c)
@@ -1577,7 +1746,7 @@ def replay(case):
         if 'spec' in case:
             spec = case['spec']
         else:
-            spec = {'cls': sqlo.uniq('C14Replay'), 'style': 'u', 'longID': False, 'table': None, 'idName': None, 'idStr': False,
+            spec = {'cls': sqlo.uniq('C14Replay'), 'style': 'u', 'longID': False, 'table': case.get('table'), 'idName': None, 'idStr': False,
                     'idSize': None, 'cols': [case['col']], 'targets': case.get('targets', []), 'indexes': []}
         spec = dict(spec)
         spec['cls'] = sqlo.uniq('C14Replay')
@@ -1589,7 +1758,7 @@ def replay(case):
             t.pop('id_real', None)
         reuse = case.get('reuse') or spec.pop('reuse', None)
         spec.pop('reuse', None)
-        if reuse and spec.get('table') and not case.get('keep_table'):
+        if reuse and spec.get('table') and '.' not in spec['table'] and not case.get('keep_table'):
             spec['table'] = None
         run_spec(c, spec, False, False, reuse=reuse)
     return (not lines), '\n'.join(lines) or 'no property failure on this case'
